@@ -15,6 +15,19 @@ EXTRA["C06"] = [
       ["C06.8"], "helper predicate knows v0 programs only"),
 ]
 
+EXTRA["C06"] += [
+    M("schnorr-sig-any-length", "op.py", "    elif len(signature) == 64:\n        hash_type = 0\n    else:\n        # BIP341: a signature is 64 or 65 bytes\n        return False\n    sig = SchnorrSignature.parse(signature)\n    msg = tx_obj.sig_hash(input_index, hash_type)\n    if point.verify_schnorr(msg, sig):\n        stack.append(encode_num(1))",
+      "    else:\n        hash_type = 0\n    sig = SchnorrSignature.parse(signature)\n    msg = tx_obj.sig_hash(input_index, hash_type)\n    if point.verify_schnorr(msg, sig):\n        stack.append(encode_num(1))",
+      ["C06.11"], "signatures of any length other than 65 use the implicit hash type"),
+    M("schnorr-explicit-default", "op.py", "        # BIP341: an explicit hash type byte must not be SIGHASH_DEFAULT\n        if hash_type == 0:\n            return False\n        signature = signature[:-1]\n    elif len(signature) == 0:\n        stack.append(encode_num(0))",
+      "        signature = signature[:-1]\n    elif len(signature) == 0:\n        stack.append(encode_num(0))", ["C06.11"], "sig || 00 accepted"),
+]
+
+EXTRA["C10"] = [
+    M("p2sh-p2wpkh-key-vs-script-hash", "psbt.py", "                    if script_pubkey.is_p2wpkh():\n                        h160 = script_pubkey.commands[1]\n                    else:\n                        h160 = self.redeem_script.commands[1]\n",
+      "                    h160 = script_pubkey.commands[1]\n", ["C10.12"], "wrapped p2wpkh key compared with the script hash"),
+]
+
 EXTRA["C07"] = [
     M("final-truth-any", "script.py", "        if decode_num(stack.pop()) == 0:\n            return False\n", "        if not any(stack.pop()):\n            return False\n", ["C07.5"], "negative zero is truthy"),
 ]
@@ -30,7 +43,7 @@ EXTRA["C09"] = [
     M("p2pkh-dispatch-misses-n", "script.py", "    if s[:1] in (\"1\", \"m\", \"n\"):\n", "    if s[:1] in (\"1\", \"m\"):\n", ["C09.5"], "testnet addresses starting with n are not recognised"),
 ]
 
-EXTRA["C10"] = [
+EXTRA["C10"] = EXTRA.get("C10", []) + [
     M("sign-break-after-first-input", "psbt.py", "                    signed = True\n        # return whether we signed something\n        return signed\n\n    def combine(",
       "                    signed = True\n                    break\n        # return whether we signed something\n        return signed\n\n    def combine(", ["C10.10"], "a key signs only the first input it unlocks"),
 ]
